@@ -804,29 +804,35 @@ def _settings_block(enums):
     return b"".join(struct.pack(">HHHI", e, 2, 4, 0x01020304) for e in enums) + b"\x00\x00"
 
 
+# documented defaults of the pe helpers: search from offset 0 over 1024 bytes
+DOC_DEFAULTS = {"start_offset": 0, "maxrange": 1024}
+_LINE = [""]      # the case line being executed (impl sets it; drop_defaults derives its choice from it)
+
+
 def _pe_call(fh, op, start, maxrange):
     if op == "mz":
-        r = pe.find_mz_offset(fh, start_offset=start, maxrange=maxrange)
+        r = pe.find_mz_offset(fh, **C.drop_defaults(_LINE[0], DOC_DEFAULTS, start_offset=start, maxrange=maxrange))
         return f"{_oi(r)} {fh.tell()}"
     if op == "arch":
-        r = pe.find_architecture(fh, start_offset=start, maxrange=maxrange)
+        r = pe.find_architecture(fh, **C.drop_defaults(_LINE[0], DOC_DEFAULTS, start_offset=start, maxrange=maxrange))
         return f"{'none' if r is None else r} {fh.tell()}"
     if op == "stamps":
-        c, x = pe.find_compile_stamps(fh, start_offset=start, maxrange=maxrange)
+        c, x = pe.find_compile_stamps(fh, **C.drop_defaults(_LINE[0], DOC_DEFAULTS, start_offset=start, maxrange=maxrange))
         return f"ok {_oi(c)} {_oi(x)} {fh.tell()}"
     if op == "mmz":
-        r = pe.find_magic_mz(fh, start_offset=start, maxrange=maxrange)
+        r = pe.find_magic_mz(fh, **C.drop_defaults(_LINE[0], DOC_DEFAULTS, start_offset=start, maxrange=maxrange))
         return f"{_ob(r)} {fh.tell()}"
     if op == "mpe":
-        r = pe.find_magic_pe(fh, start_offset=start, maxrange=maxrange)
+        r = pe.find_magic_pe(fh, **C.drop_defaults(_LINE[0], DOC_DEFAULTS, start_offset=start, maxrange=maxrange))
         return f"ok {_ob(r)} {fh.tell()}"
     if op == "ppa":
-        p, a = pe.find_stage_prepend_append(fh, start_offset=start, maxrange=maxrange)
+        p, a = pe.find_stage_prepend_append(fh, **C.drop_defaults(_LINE[0], DOC_DEFAULTS, start_offset=start, maxrange=maxrange))
         return f"ok {_ob(p)} {_ob(a)} {fh.tell()}"
     raise RuntimeError("unknown pe op " + op)
 
 
 def impl(stream, line):
+    _LINE[0] = line
     w = line.split(" ")
     if stream in PE_OPS:
         data = C.unhx(w[2])
